@@ -85,6 +85,12 @@ impl KmerFilter {
         }
     }
 
+    /// Add-only verification hook: the private Bloom step on a raw hash value
+    #[cfg(feature = "verif-hooks")]
+    pub fn verif_bloom_add_and_check(&mut self, key: u64) -> bool {
+        self.bloom_add_and_check(key)
+    }
+
     /// Creates a new filter with given threshold
     ///
     /// Note:
